@@ -192,6 +192,7 @@ LenOp ==
   /\ UNCHANGED state
 
 \* iteration = get(0), get(1), ... ; modelled as one call whose reply is the list
+\* (every iteration runs over the whole store, also when two iterations of the same store overlap)
 Iterate ==
   /\ Open
   /\ last' = Reply("iter", "-", "yes", IF mode = "mem" THEN [j \in 1..Len(added) |-> cache[j - 1]] ELSE disk)
